@@ -709,7 +709,12 @@ func (c *Compiler) writeNode(node, parent *node, recv, v, vsrc string, depth int
 						c.wl("if ", v, ".", ch.name, " == nil { return nil }")
 					}
 					if mode == modeSet {
-						c.wl("inspector.AssignBuf(", pfx, v, ".", ch.name, ", value, buf)")
+						if ch.typ == typeBasic && !c.isBuiltin(ch.typn) && c.isBuiltin(ch.typu) {
+							// A named scalar: assign through a pointer to its underlying builtin type, the only kind AssignBuf converts to.
+							c.wl("inspector.AssignBuf((*", ch.typu, ")(", pfx, v, ".", ch.name, "), value, buf)")
+						} else {
+							c.wl("inspector.AssignBuf(", pfx, v, ".", ch.name, ", value, buf)")
+						}
 					}
 					if parent != nil && parent.typ == typeMap && !node.ptr && len(vsrc) > 0 {
 						// v is a copy of a map entry: store it back.
